@@ -51,6 +51,15 @@ MaxS(x) == CHOOSE m \in {x[i] : i \in 1..Len(x)} : \A i \in 1..Len(x) : x[i] <= 
 InfNorm(x, nr) == LET nc == Len(x) \div nr IN
                   MaxS([i \in 1..nr |-> SumS([j \in 1..nc |-> AbsI(x[(i - 1) * nc + j])])])
 
+\* maps onto the integers, exact on quarters q/4 (q an integer): floor, ceil, round (IEEE roundToIntegralTiesToAway, which is what
+\* f64::round computes: a tie goes AWAY from zero whatever the parity of its neighbours), signum; |q/4| stays in quarters
+FloorQ(q) == q \div 4
+CeilQ(q)  == 0 - ((0 - q) \div 4)
+RoundQ(q) == IF q >= 0 THEN (q + 2) \div 4 ELSE 0 - ((2 - q) \div 4)
+SignQ(q)  == IF q < 0 THEN 0 - 1 ELSE 1          \* signum(+0.0) = 1 (the harness supplies +0.0 for q = 0)
+QTbl == <<2, 0 - 2, 6, 0 - 6, 10, 0 - 10, 1, 0 - 1, 3, 0 - 3, 5, 7, 0, 4, 0 - 4, 9, 0 - 5, 0 - 7, 11, 0 - 11, 8, 0 - 9, 14, 0 - 14>>
+QVec(n) == [i \in 1..n |-> QTbl[((i - 1) % Len(QTbl)) + 1]]
+
 \* operands: position dependent, distinct, asymmetric under - and /
 LVec(n) == [i \in 1..n |-> 3 * i + 1]
 RVec(n) == [i \in 1..n |-> 2 * i + 5]
